@@ -54,11 +54,12 @@ Proof.
   fold (task_inputs t) in Htr.
   destruct (completion (rp_theory (task_placeholders t) G) (task_inputs t)) as [D|] eqn:HD; [|discriminate].
   cbv zeta in Htr. set (outs := ug_output_predicates (et_user_guide t)) in *.
+  set (occ := task_occurring_predicates t) in *.
   assert (E : forall N, tvalid FI N th <->
                 (forall f, In f D -> cvalid FI N f) /\
-                (forall q, In q outs -> ~ In q (theory_predicates D) -> forall d, List.length d = parity q -> ~ N (psym q) d)).
-  { intros N. rewrite <- (missing_outputs_valid FI N outs D).
-    assert (E0 : tvalid FI N th <-> (forall f, In f (D ++ missing_output_definitions outs D) -> cvalid FI N f)).
+                (forall q, In q outs -> In q occ -> ~ In q (theory_predicates D) -> forall d, List.length d = parity q -> ~ N (psym q) d)).
+  { intros N. rewrite <- (missing_outputs_valid FI N outs occ D).
+    assert (E0 : tvalid FI N th <-> (forall f, In f (D ++ missing_output_definitions outs occ D) -> cvalid FI N f)).
     { injection Htr as <-. unfold tvalid. destruct (et_simplify t); [apply simp_theory_sound|tauto]. }
     rewrite E0. split.
     - intros H. split; intros f Hf; apply H, in_or_app; auto.
@@ -66,18 +67,17 @@ Proof.
   rewrite !E.
   assert (Hincl : incl (theory_predicates (rp_theory (task_placeholders t) G)) (ext_voc t P)).
   { intros q Hq. rewrite rp_theory_predicates in Hq. apply (tau_star_predicates P G q Hts) in Hq.
-    unfold ext_voc. apply in_or_app. left; exact Hq. }
+    apply in_ext_voc. left; exact Hq. }
   rewrite (completion_restrict _ _ _ FI N1 (ext_voc t P) HD Hincl), (completion_restrict _ _ _ FI N2 (ext_voc t P) HD Hincl).
   assert (Hr : forall f e, csat FI (restrict (ext_voc t P) N1) e f <-> csat FI (restrict (ext_voc t P) N2) e f).
   { intros f e. apply csat_pagree. intros p a _. unfold restrict. split; intros [H1 H2]; split; auto; apply (Hag p a H2); exact H1. }
-  assert (Ho : forall q d, In q outs -> List.length d = parity q -> (N1 (psym q) d <-> N2 (psym q) d)).
-  { intros q d Hq Hl. apply Hag. unfold ext_voc. apply in_or_app. right.
-    unfold ug_public_predicates. apply in_iset_extend. right. rewrite Hl. destruct q; exact Hq. }
+  assert (Ho : forall q d, In q outs -> In q occ -> List.length d = parity q -> (N1 (psym q) d <-> N2 (psym q) d)).
+  { intros q d Hq Hoc Hl. apply Hag. apply in_ext_voc. right. right. rewrite Hl. destruct q; split; [exact Hq|exact Hoc]. }
   split; intros [H H'].
   - split; [intros f Hf e; apply Hr; apply H; exact Hf|].
-    intros q Hq Hn d Hl Hd. apply (H' q Hq Hn d Hl). apply (Ho q d Hq Hl). exact Hd.
+    intros q Hq Hoc Hn d Hl Hd. apply (H' q Hq Hoc Hn d Hl). apply (Ho q d Hq Hoc Hl). exact Hd.
   - split; [intros f Hf e; apply Hr; apply H; exact Hf|].
-    intros q Hq Hn d Hl Hd. apply (H' q Hq Hn d Hl). apply (Ho q d Hq Hl). exact Hd.
+    intros q Hq Hoc Hn d Hl Hd. apply (H' q Hq Hoc Hn d Hl). apply (Ho q d Hq Hoc Hl). exact Hd.
 Qed.
 
 (* the public predicates of the task *)
@@ -117,7 +117,7 @@ Proof.
     destruct (in_dec pred_dec q public) as [Hp|Hp]; [exact Hp|]. exfalso. apply Hnp, Hin_priv. auto. }
   (* hence N and M agree on the whole vocabulary of P *)
   assert (Hag : pagree (ext_voc t P) N M).
-  { intros p a Hin. unfold ext_voc in Hin. apply in_app_or in Hin.
+  { intros p a Hin. apply ext_voc_incl_public in Hin. unfold ext_voc_public in Hin. apply in_app_or in Hin.
     assert (Hq : In (mkpred p (List.length a)) public \/ In (mkpred p (List.length a)) priv).
     { destruct Hin as [Hin|Hin].
       - destruct (in_dec pred_dec (mkpred p (List.length a)) public) as [Hp|Hp]; [left; exact Hp|right; apply Hin_priv; auto].
